@@ -68,7 +68,11 @@ static rc::Gen<PolyKind> genPoly(bool force_triangulated) {
         pg::Poly p;
         double feature = 2;
         int kind = *irange(0, 7);
-        if (force_triangulated && (kind == 0 || kind == 1 || kind == 5)) kind = kind == 5 ? 3 : 6 + (kind & 1);
+        // 1/4: shapes with sharp or re-entrant edges (triangular prism, 3- and 4-sided bipyramids, L-prism): the ball pivoting leaves several
+        // holes to fill there, which smooth shapes never do
+        const bool sharp = *irange(0, 3) == 0;
+        if (sharp) kind = *rc::gen::element(1, 2, 5);
+        if (!sharp && force_triangulated && (kind == 0 || kind == 1 || kind == 5)) kind = kind == 5 ? 3 : 6 + (kind & 1);
         switch (kind) {
             case 0: {
                 double a = *uniform(0.6, 1.4), b = *uniform(0.6, 1.4), cc = *uniform(0.6, 1.4);
@@ -76,12 +80,13 @@ static rc::Gen<PolyKind> genPoly(bool force_triangulated) {
                 break;
             }
             case 1: {
-                int n = *irange(3, 9);
+                int n = sharp ? 3 : *irange(3, 9);
                 double r = *uniform(0.7, 1.3), h = *uniform(0.5, 1.2);
                 p = pg::prism(n, r, h), feature = std::min(2 * h, n == 3 ? 1.5 * r : n == 4 ? 1.41 * r : 1.7 * r);
+                if (force_triangulated) p = pg::from_trimesh(pg::triangulate(p));
                 break;
             }
-            case 2: p = pg::from_trimesh(mg::bipyramid(*irange(3, 8))), feature = 1.2; break;
+            case 2: p = pg::from_trimesh(mg::bipyramid(sharp ? *irange(3, 4) : *irange(3, 8))), feature = 1.2; break;
             case 3: p = pg::from_trimesh(mg::icosphere(*irange(0, 2))); break;
             case 4: {
                 TriMesh m = mg::icosphere(*irange(1, 2));
@@ -93,6 +98,7 @@ static rc::Gen<PolyKind> genPoly(bool force_triangulated) {
             case 5: {
                 double a = *uniform(0.6, 1.0), h = *uniform(0.5, 1.0);
                 p = pg::lprism(a, h), feature = std::min(a, 2 * h);
+                if (force_triangulated) p = pg::from_trimesh(pg::triangulate(p));
                 break;
             }
             case 6: {
